@@ -529,6 +529,11 @@ func verifMRRun(api, workers int, mixed bool, ctxMode, rbeh int) {
 		}
 		ok = ok || plain()
 		verifAssert(ok, "the outcome is the panic, the cancel error, DeadlineExceeded or the reducer's result")
+		if len(e.raised) > 0 && len(e.cancels) == 0 && e.ctxMode == 0 {
+			// nothing but panics and an early result: the result does not excuse the panic
+			verifAssert(isPanic, "a panic in the generator, a mapper or the reducer is re-raised in the calling goroutine also when the reducer had already delivered its result")
+			verifReach("panic-after-result")
+		}
 		verifReach("mixed")
 	}
 }
